@@ -16,7 +16,7 @@ from .. import gen as cgen
 
 PROP = 'C10'
 TIERS = {
-    'quick': {'runs': 40000, 'chunk': 50, 'wall_cap': 80, 'min_budget': 30},
+    'quick': {'runs': 30000, 'chunk': 50, 'wall_cap': 80, 'min_budget': 30},
     'thorough': {'runs': 200000, 'chunk': 50, 'wall_cap': 850, 'min_budget': 60},
 }
 RULE = ('case = seeded netlist (<= 5 inputs, primitive gates, <= 2 primitive flip-flops/latches, 1-4 library instances of ONE built-in library; run i instantiates catalogue entry i mod |catalogue| so that every cell name '
